@@ -5,9 +5,10 @@
 //! operation and every pause point is a no-op.
 //!
 //! * `shim_std` / `shim_tokio` shadow the names `std` / `tokio` inside
-//!   `ingester/wal.rs` so that the WAL's file-system calls run synchronously on
-//!   the calling thread and consult [`FS_HOOK`] first (fault injection, torn
-//!   writes, crash fencing).
+//!   `ingester/wal.rs` so that the WAL's file-system calls run on the calling
+//!   thread and consult [`FS_HOOK`] first (fault injection, torn writes, crash
+//!   fencing). The `tokio::fs::File` stand-in keeps tokio's deferred reporting of
+//!   write errors.
 //! * [`pause`] is a named await point a simulator can park a task at.
 
 use ::std::cell::{Cell, RefCell};
@@ -20,8 +21,11 @@ pub enum FsAction {
     Proceed,
     /// Fail with this OS error number, nothing applied.
     Fail(i32),
-    /// Write at most this many bytes (legal short write).
+    /// The OS accepts only this many bytes at first (legal short write).
     Short(usize),
+    /// The OS accepts this many bytes, the rest fails with this error number
+    /// (a disk filling up in the middle of a write).
+    PartialThenFail(usize, i32),
     /// Write this many bytes, then the process is considered dead.
     TornThenDie(usize),
     /// The caller belongs to a dead process: never complete.
@@ -46,7 +50,7 @@ pub fn fs_pre(op: &str, path: &::std::path::Path, len: usize) -> FsAction {
 
 fn act_to_res(a: FsAction) -> io::Result<()> {
     match a {
-        FsAction::Fail(e) => Err(io::Error::from_raw_os_error(e)),
+        FsAction::Fail(e) | FsAction::PartialThenFail(_, e) => Err(io::Error::from_raw_os_error(e)),
         FsAction::TornThenDie(_) | FsAction::Freeze => Err(io::Error::other("sim: node died")),
         _ => Ok(()),
     }
@@ -64,6 +68,10 @@ pub mod shim_std {
             let c = c.as_ref();
             match fs_pre("std.write", p.as_ref(), c.len()) {
                 FsAction::Fail(e) => Err(::std::io::Error::from_raw_os_error(e)),
+                FsAction::PartialThenFail(n, e) => {
+                    ::std::fs::write(p, &c[..n.min(c.len())])?;
+                    Err(::std::io::Error::from_raw_os_error(e))
+                }
                 FsAction::Freeze => Err(::std::io::Error::other("sim: node died")),
                 FsAction::TornThenDie(n) | FsAction::Short(n) => {
                     ::std::fs::write(p, &c[..n.min(c.len())])?;
@@ -80,7 +88,9 @@ pub mod shim_std {
             to: Q,
         ) -> ::std::io::Result<()> {
             match fs_pre("std.rename", to.as_ref(), 0) {
-                FsAction::Fail(e) => Err(::std::io::Error::from_raw_os_error(e)),
+                FsAction::Fail(e) | FsAction::PartialThenFail(_, e) => {
+                    Err(::std::io::Error::from_raw_os_error(e))
+                }
                 // dies before the rename takes effect
                 FsAction::Freeze | FsAction::TornThenDie(0) => {
                     Err(::std::io::Error::other("sim: node died"))
@@ -105,16 +115,48 @@ pub mod shim_tokio {
         use ::std::pin::Pin;
         use ::std::task::{Context, Poll};
 
+        /// Mirrors `tokio::fs::File`: a write is handed to a background thread and reported as
+        /// accepted at once; its outcome is learnt by the *next* write or flush. `sync_data` /
+        /// `sync_all` wait for the write in flight but do not return its error (they stash it for the
+        /// next write or flush), exactly like tokio 1.x. Here the OS-level write is carried out
+        /// eagerly on the calling thread; only the delivery of its result is deferred.
         pub struct File {
             f: ::std::fs::File,
             path: PathBuf,
             epoch: u64,
+            st: ::std::sync::Mutex<Deferred>,
         }
+        #[derive(Default)]
+        struct Deferred {
+            /// outcome of the write in flight, not yet reported to the caller
+            inflight: Option<io::Result<()>>,
+            last_write_err: Option<io::ErrorKind>,
+        }
+        /// tokio's default `max_buf_size`: one `poll_write` accepts at most this much.
+        const MAX_BUF: usize = 2 * 1024 * 1024;
         pub struct Metadata(::std::fs::Metadata);
         impl Metadata {
             #[allow(clippy::len_without_is_empty)]
             pub fn len(&self) -> u64 {
                 self.0.len()
+            }
+        }
+        impl Deferred {
+            /// tokio's `Inner::poll_flush`
+            fn flush(&mut self) -> io::Result<()> {
+                if let Some(k) = self.last_write_err.take() {
+                    return Err(k.into());
+                }
+                match self.inflight.take() {
+                    Some(r) => r,
+                    None => Ok(()),
+                }
+            }
+            /// tokio's `Inner::complete_inflight`
+            fn complete_inflight(&mut self) {
+                if let Err(e) = self.flush() {
+                    self.last_write_err = Some(e.kind());
+                }
             }
         }
         impl File {
@@ -128,6 +170,7 @@ pub mod shim_tokio {
                 if self.dead() {
                     return ::std::future::pending().await;
                 }
+                self.st.lock().unwrap().complete_inflight();
                 match fs_pre("sync", &self.path, 0) {
                     FsAction::Freeze | FsAction::TornThenDie(_) => ::std::future::pending().await,
                     a => act_to_res(a)?,
@@ -138,6 +181,7 @@ pub mod shim_tokio {
                 if self.dead() {
                     return ::std::future::pending().await;
                 }
+                self.st.lock().unwrap().complete_inflight();
                 self.f.sync_all()
             }
         }
@@ -150,27 +194,61 @@ pub mod shim_tokio {
                 if self.dead() {
                     return Poll::Pending;
                 }
-                let path = self.path.clone();
-                match fs_pre("write", &path, buf.len()) {
-                    FsAction::Freeze => Poll::Pending,
-                    FsAction::Fail(e) => Poll::Ready(Err(io::Error::from_raw_os_error(e))),
-                    FsAction::Short(n) => {
-                        let n = n.clamp(1, buf.len().max(1)).min(buf.len());
-                        Poll::Ready(self.f.write(&buf[..n]))
+                {
+                    // the outcome of the previous write is reported now, instead of writing
+                    let mut st = self.st.lock().unwrap();
+                    if let Some(k) = st.last_write_err.take() {
+                        return Poll::Ready(Err(k.into()));
                     }
-                    FsAction::TornThenDie(n) => {
-                        let n = n.min(buf.len());
-                        let _ = self.f.write_all(&buf[..n]);
-                        Poll::Pending
+                    if let Some(r) = st.inflight.take() {
+                        if let Err(e) = r {
+                            return Poll::Ready(Err(e));
+                        }
                     }
-                    FsAction::Proceed => Poll::Ready(self.f.write(buf)),
                 }
+                let n = buf.len().min(MAX_BUF);
+                let buf = &buf[..n];
+                let path = self.path.clone();
+                // the background thread's `write_all`: one hook consultation per OS-level write
+                let mut off = 0usize;
+                let res: io::Result<()> = loop {
+                    let rest = &buf[off..];
+                    match fs_pre("write", &path, rest.len()) {
+                        FsAction::Freeze => return Poll::Pending,
+                        FsAction::Fail(e) => break Err(io::Error::from_raw_os_error(e)),
+                        FsAction::PartialThenFail(k, e) => {
+                            let _ = self.f.write_all(&rest[..k.min(rest.len())]);
+                            break Err(io::Error::from_raw_os_error(e));
+                        }
+                        FsAction::Short(k) => {
+                            // `write_all` carries on after a short write
+                            let k = k.clamp(1, rest.len().max(1)).min(rest.len());
+                            if let Err(e) = self.f.write_all(&rest[..k]) {
+                                break Err(e);
+                            }
+                            off += k;
+                            if off >= buf.len() {
+                                break Ok(());
+                            }
+                        }
+                        FsAction::TornThenDie(k) => {
+                            let _ = self.f.write_all(&rest[..k.min(rest.len())]);
+                            return Poll::Pending;
+                        }
+                        FsAction::Proceed => break self.f.write_all(rest),
+                    }
+                };
+                self.st.lock().unwrap().inflight = Some(res);
+                Poll::Ready(Ok(n))
             }
             fn poll_flush(self: Pin<&mut Self>, _cx: &mut Context<'_>) -> Poll<io::Result<()>> {
-                Poll::Ready(Ok(()))
+                if self.dead() {
+                    return Poll::Pending;
+                }
+                Poll::Ready(self.st.lock().unwrap().flush())
             }
-            fn poll_shutdown(self: Pin<&mut Self>, _cx: &mut Context<'_>) -> Poll<io::Result<()>> {
-                Poll::Ready(Ok(()))
+            fn poll_shutdown(self: Pin<&mut Self>, cx: &mut Context<'_>) -> Poll<io::Result<()>> {
+                self.poll_flush(cx)
             }
         }
 
@@ -210,6 +288,7 @@ pub mod shim_tokio {
                     f: self.o.as_ref().unwrap().open(path.as_ref())?,
                     path: path.as_ref().to_path_buf(),
                     epoch: FS_EPOCH.with(|e| e.get()),
+                    st: Default::default(),
                 })
             }
         }
